@@ -35,6 +35,14 @@ def called(k):
     return inner_fail(k)
 def inner_fail(k):
     raise KeyError('in module code %d' % k)
+class FalsyError(Exception):
+    # an exception object that is false in a boolean context, with a lineno and a text attribute of its own
+    lineno = 1
+    text = 'not the doctest'
+    def __bool__(self):
+        return False
+    def __len__(self):
+        return 0
 '''
 
 # failing blocks: (name, source lines (prompted), want lines, index of the failing line inside the block
@@ -74,6 +82,7 @@ def failing_blocks(k):
     B.append(('wrong_output_percent_table', [">>> print('a 10%%\\nb 20%%\\nc 30%%\\nd 40%% {0} {x} \\\\d', t(%d))" % k], ['a 10%', 'b 20%', 'c 99%', 'd 40% {0} {x} \\d ' + str(k)], 1,
               'GotWantException', 'gotwant'))
     B.append(('raise_percent_message', ['>>> t(%d)' % k, ">>> raise ValueError('100%% wrong: %%s %%d {} {0} \\\\1')"], [], 1, 'ValueError', 'exception'))
+    B.append(('raise_falsy_exception', ['>>> q = 1', '>>> t(%d)' % k, ">>> raise FalsyError('nothing in it')"], [], 2, 'FalsyError', 'exception'))
     B.append(('traceback_want_mismatch', ['>>> boom(%d)' % k], ['Traceback (most recent call last):', 'KeyError: other'], 1, 'GotWantException', 'gotwant'))
     return B
 
